@@ -251,7 +251,7 @@ func init() {
 		bodyprot := bytesOf(c["bodyprot"])
 		slotsIn, _ := c["slots"].([]any)
 		ev := J{"op": "wireflow", "id": c["id"], "kind": kind, "ext": c["ext"], "payload": c["payload"], "mut": c["mut"], "bodyprot": c["bodyprot"],
-			"sigop": c["sigop"], "alt": c["alt"]}
+			"sigop": c["sigop"], "alt": c["alt"], "henv": c["henv"] == true, "henvres": "n/a", "henvspy": []any{}}
 		log := &spyLog{}
 		var vs []cose.Verifier
 		slots := make([]any, len(slotsIn))
@@ -339,6 +339,26 @@ func init() {
 			calls = []any{}
 		}
 		ev["spy"] = calls
+		// the same bytes through VerifyHashEnvelope when the case is a hash envelope
+		if c["henv"] == true {
+			hlog := &spyLog{}
+			sv := vs[0].(*spyVerifier)
+			var herr error
+			if p := guard(func() { _, herr = cose.VerifyHashEnvelope(&spyVerifier{name: "v", alg: sv.alg, inner: sv.inner, log: hlog}, wire) }); p != "" {
+				ev["henvres"] = "panic"
+			} else {
+				ev["henvres"] = errClass(herr)
+			}
+			var hc []any
+			for _, cl := range hlog.list() {
+				if cl.(J)["call"] == "Verify" {
+					hc = append(hc, cl)
+				}
+			}
+			if hc != nil {
+				ev["henvspy"] = hc
+			}
+		}
 		// re-encode untouched (C09)
 		var re []byte
 		var rerr error
